@@ -936,4 +936,9 @@ pub mod verif {
     pub fn join_suffix(path: &Path, suffix: &Path) -> Result<PathBuf, String> {
         super::join_suffix(path, suffix).into_result()
     }
+
+    /// `DockerBuilder::clean_container`: may this container go back into the pool?
+    pub fn docker_clean_container(builder: &super::DockerBuilder, cid: &str) -> Result<(), String> {
+        builder.clean_container(cid).map_err(|e| format!("{:#}", e))
+    }
 }
